@@ -194,7 +194,6 @@ class SinglePhaseReservoir(IdealReservoir):
                     f" {len(pressure_fracface)} versus {len(time)}"
                 )
                 raise ValueError(msg)
-            self.pressure_fracface = pressure_fracface
         m_i = self.fluid.m_i
         m_f = self.fluid.m_scaled_func(pressure_fracface)
         pseudopressure_initial = np.full(self.nx, m_i)
